@@ -61,6 +61,18 @@ func TestVerifBoundedC07(t *testing.T) {
 		"interface org.example.b\nmethod M(a: int) -> (a: int)\nmethod N(b: (c: (d: (e: int)))) -> ()\ntype U (v: ?[]?[string]?U)\n",
 		"interface org.example.b\nmethod M() -> ()\nmethod N() -> ()\nmethod O() -> ()\nerror E1 ()\nerror E2 (a: int, b: string, c: float)\n",
 	)
+	// deep nesting: 12 levels of anonymous structs in every position (indentation / recursion depth)
+	deep := "int"
+	for i := 0; i < 12; i++ {
+		deep = "(n: " + deep + ")"
+	}
+	descs = append(descs,
+		"interface org.example.b\ntype A "+deep+"\nmethod M() -> ()\n",
+		"interface org.example.b\nmethod M(p: "+deep+") -> ()\n",
+		"interface org.example.b\nmethod M() -> (q: "+deep+")\n",
+		"interface org.example.b\nmethod M() -> ()\nerror E (p: "+deep+")\n",
+		"interface org.example.b\nmethod M(p: []?[string]"+deep+") -> (q: ?[]"+deep+")\n",
+	)
 	// collision probes: identifiers the generator derives from a member name must not be able to
 	// collide with another member. For each member kind, every package-level identifier the output
 	// declares that contains the probe name and is itself a legal member name is added as a second
@@ -70,8 +82,8 @@ func TestVerifBoundedC07(t *testing.T) {
 		"interface org.example.b\nmethod M() -> ()\ntype Zq9Probe (a: int)\n",
 		"interface org.example.b\nmethod M() -> ()\nerror Zq9Probe (a: int)\n",
 	} {
-		_, out, err := generateTemplate(base)
-		if err != nil {
+		_, out, err, pan := safeGenerate(base)
+		if err != nil || pan != nil {
 			continue
 		}
 		f, perr := parser.ParseFile(fset, "probe.go", out, 0)
@@ -114,7 +126,12 @@ func TestVerifBoundedC07(t *testing.T) {
 	fails := 0
 	checked := 0
 	for _, d := range descs {
-		pkgname, out, err := generateTemplate(d)
+		pkgname, out, err, pan := safeGenerate(d)
+		if pan != nil {
+			fails++
+			fmt.Printf("BOUNDED-FAIL kind=panic description=%q panic=%v\n", d, pan)
+			continue
+		}
 		if err != nil {
 			// rejected descriptions are outside the property (only accepted ones count), but format errors are failures
 			if _, perr := parseOnly(d); perr == nil {
@@ -123,7 +140,7 @@ func TestVerifBoundedC07(t *testing.T) {
 			}
 			continue
 		}
-		_, out2, _ := generateTemplate(d)
+		_, out2, _, _ := safeGenerate(d)
 		if string(out) != string(out2) {
 			fails++
 			fmt.Printf("BOUNDED-FAIL kind=nondeterministic description=%q\n", d)
@@ -185,6 +202,16 @@ func TestVerifBoundedC07(t *testing.T) {
 	if os.Getenv("VERIF_BOUNDED_STRICT") != "" && fails > 0 {
 		t.Fail()
 	}
+}
+
+func safeGenerate(d string) (pkg string, out []byte, err error, pan interface{}) {
+	defer func() {
+		if r := recover(); r != nil {
+			pan = r
+		}
+	}()
+	pkg, out, err = generateTemplate(d)
+	return
 }
 
 func parseOnly(d string) (interface{}, error) {
